@@ -172,10 +172,20 @@ def shapes(tier, warnings=('all', 'none')):
         add('%d nested parentheses' % d, 'expression', wrap(nested_parens(d) + ent()), label='1000 or more nested parentheses')
         add('%d nested remarks' % d, 'between declarations', wrap(nested_remark(d) + '\n' + ent()), label='1000 or more nested remarks')
         add('%d unclosed parentheses' % d, 'expression', wrap(fn('  i := %s1;' % ('(' * d)) + ent()), label='1000 or more unclosed parentheses')
-    # many diagnostics
+    # many diagnostics, direct and buffered (-B: heap[ERROR_MAX_ERRORS=100] + 4000-byte text buffer)
     for n in (99, 100, 101, 1000):
         add('%d errors in one file' % n, 'undefined attribute types', n_errors(n))
         add('%d errors in one file' % n, 'syntax errors', n_syntax_errors(n))
+        add('%d errors in one file, buffered (-B)' % n, 'undefined attribute types', n_errors(n), ALL, ('-B',))
+        add('%d errors in one file, buffered (-B)' % n, 'syntax errors', n_syntax_errors(n), ALL, ('-B',))
+    for n in (100, 3000, 3990, 4100, 8191, 10 ** 5):
+        add('buffered (-B) diagnostic with an argument of %d chars' % n, 'undefined type reference',
+            wrap('ENTITY e;\n  a : %s;\nEND_ENTITY;\n' % X(n)), ALL, ('-B',),
+            label=size_label('buffered (-B) diagnostic with an argument', n, (3800,)))
+    add('30 errors with 8000-char arguments, buffered (-B)', 'undefined attribute types',
+        wrap('ENTITY e;\n' + ''.join('  a%d : %s%d;\n' % (i, 'u' * 8000, i) for i in range(30)) + 'END_ENTITY;\n'), ALL, ('-B',))
+    add('60 errors with 60-char arguments, buffered (-B)', 'undefined attribute types',
+        wrap('ENTITY e;\n' + ''.join('  a%d : %s%d;\n' % (i, 'u' * 60, i) for i in range(60)) + 'END_ENTITY;\n'), ALL, ('-B',))
     add('30 errors with 8000-char arguments', 'undefined attribute types',
         wrap('ENTITY e;\n' + ''.join('  a%d : %s%d;\n' % (i, 'u' * 8000, i) for i in range(30)) + 'END_ENTITY;\n'))
     # odd whole-file shapes
